@@ -85,6 +85,8 @@ func runC16(line string) string {
 		}
 	}()
 	var outs []string
+	want := map[string]bool{} // the dependency set, as the harness has asked for it
+	allowedNow := func() bool { mu.Lock(); defer mu.Unlock(); return allowed }
 	blocked := false
 	call := func(f func()) {
 		done := make(chan struct{})
@@ -116,7 +118,7 @@ func runC16(line string) string {
 					}
 					time.Sleep(2 * time.Millisecond)
 				}
-				time.Sleep(8 * time.Millisecond)
+				settle(8 * time.Millisecond)
 			}
 		case op == "down":
 			mu.Lock()
@@ -127,9 +129,28 @@ func runC16(line string) string {
 			if s != nil {
 				s.kill()
 			}
-			time.Sleep(8 * time.Millisecond)
+			settle(8 * time.Millisecond)
 		case op == "f":
-			time.Sleep(12 * time.Millisecond)
+			// give the sender loop (and, after "up", the resubscription) time until the server's view is the dependency set
+			waitFor(2*time.Second, func() bool {
+				mu.Lock()
+				s := cur
+				mu.Unlock()
+				if s == nil {
+					return !allowedNow()
+				}
+				s.mu.Lock()
+				defer s.mu.Unlock()
+				if len(s.view) != len(want) {
+					return false
+				}
+				for k := range want {
+					if !s.view[k] {
+						return false
+					}
+				}
+				return true
+			})
 			mu.Lock()
 			s := cur
 			mu.Unlock()
@@ -152,8 +173,10 @@ func runC16(line string) string {
 				outs = append(outs, "view="+o)
 			}
 		case op[0] == 's':
+			want[op[1:]] = true
 			call(func() { c.Subscribe(op[1:]) })
 		case op[0] == 'u':
+			delete(want, op[1:])
 			call(func() { c.Unsubscribe(op[1:]) })
 		}
 	}
